@@ -125,12 +125,15 @@ impl<'a> Remote<'a> {
             if state.has_result() {
                 // It's waiting for us to stop. Finish setting waker here.
                 debug_assert!(state.is_completed());
-                state = self.header().state.finish_setting_waker::<false>();
+                let end = self.header().state.finish_setting_waker::<false>();
+                self.drop_waker_left_by_executor(state, end);
+                state = end;
 
                 continue;
             } else if state.is_cancelled() {
                 // The task was cancelled after last check
-                self.header().state.finish_setting_waker::<false>();
+                let end = self.header().state.finish_setting_waker::<false>();
+                self.drop_waker_left_by_executor(state, end);
 
                 break Poll::Ready(None);
             } else if state.has_waker()
@@ -178,6 +181,25 @@ impl<'a> Remote<'a> {
             }
 
             break Poll::Pending;
+        }
+    }
+
+    /// If the executor dropped the task (`Task::drop`) while we were inside the
+    /// SETTING_WAKER critical section, it cleared `HAS_WAKER` but left the waker we
+    /// had registered earlier in place for us to drop (it must not touch the slot
+    /// while we are in the section). `before` is the snapshot taken when entering
+    /// the section, `end` the one taken when leaving it without storing a waker.
+    fn drop_waker_left_by_executor(&self, before: Snapshot, end: Snapshot) {
+        if before.has_waker() && !end.has_waker() {
+            trace!("Dropping waker left by the executor");
+            self.header().waker.with_mut(|ptr| {
+                crate::panic_guard!();
+
+                // SAFETY: `HAS_WAKER` was set when we entered the section, so the slot
+                // is initialized; it has been cleared since, so neither the executor
+                // nor the last reference will touch the slot again.
+                unsafe { (*ptr).assume_init_drop() };
+            });
         }
     }
 
